@@ -395,6 +395,13 @@ func c10Worker(w *W) {
 					log.Destroy()
 					l, t := collect()
 					verify(l, t)
+					if rs == "PANIC" || rs == "WARN~FATAL" || rs == "ERROR~ERROR" {
+						// nothing of the destroyed configuration (such as its level range) may linger:
+						// the built-in logger serves every level again
+						doCalls("after-destroy-of-"+alnum(rs), rng{0, 999}, 5)
+						l, t = collect()
+						verify(l, t)
+					}
 				}
 			}
 		}
@@ -409,7 +416,7 @@ func c10Worker(w *W) {
 func init() {
 	register(&Prop{
 		ID: "C10", Level: "exploration", MinDistinct: 500, Worker: c10Worker,
-		Rule: "cross product of 24 call forms (14 fixed-level entry points + Record at 10 levels incl. custom and NONE) x 8 subsets of the three hooks set x 5 contexts (Background, TODO, value chain, cancelled, nil) under: the built-in logger before any Refresh, and Refresh-built sync and async(Block) loggers x enableCaller on/off x fastCaller on/off x 10 logger level ranges chosen so that every level is enabled in some and disabled in others " +
+		Rule: "cross product of 24 call forms (14 fixed-level entry points + Record at 10 levels incl. custom and NONE) x 8 subsets of the three hooks set x 5 contexts (Background, TODO, value chain, cancelled, nil) under: the built-in logger before any Refresh and again right after Destroy of a restrictive configuration, and Refresh-built sync and async(Block) loggers x enableCaller on/off x fastCaller on/off x 10 logger level ranges chosen so that every level is enabled in some and disabled in others " +
 			"(quick: the cross product under each Refresh is strided, the before-Refresh state is complete). Monitors: counting closures per call (hooks, lazy generator, identity of the context they receive), recording appender / console collector for the emitted record (hook time or [before,after] bracket, context string, context fields ahead of call fields). " +
 			"One further scenario keeps six events in flight in an asynchronous logger (gated appender) while the context-fields hook returns one shared immutable slice with spare capacity: every record must carry the hook's fields followed by its own. Non-trivial/distinct = distinct (state, call form, enabled/disabled, hook subset, context kind) tuples whose counts were right.",
 		Assumptions: []string{"hooks are swapped between calls by the harness while no log call is in progress (single goroutine)", "the wall-clock bracket for unset TimeNow is widened by 1 ms on both sides (monotonic vs wall clock reading)"},
